@@ -191,6 +191,13 @@ func sameType(xs []any) reflect.Type {
 }
 
 func packSlice(r *rng, elems []any) any {
+	if pt, ok := ptrElemType(elems); ok && r.chance(1, 3) {
+		sl := reflect.MakeSlice(reflect.SliceOf(pt), len(elems), len(elems))
+		for i, e := range elems {
+			sl.Index(i).Set(ptrTo(pt, e))
+		}
+		return sl.Interface()
+	}
 	t := sameType(elems)
 	if t != nil && r.chance(1, 2) {
 		if r.chance(1, 3) {
@@ -218,10 +225,63 @@ func packSlice(r *rng, elems []any) any {
 	return elems
 }
 
+// isNullRep: one of the representations of JSON null (nil interface, nil pointer)
+func isNullRep(v any) bool {
+	if v == nil {
+		return true
+	}
+	rv := reflect.ValueOf(v)
+	return rv.Kind() == reflect.Pointer && rv.IsNil()
+}
+
+// ptrElems: containers whose element type is a pointer - null members are nil pointers, the
+// others point to their value (map[string]*int{"a": nil, "b": &one}, []*string{nil, &s})
+func ptrElemType(vals []any) (reflect.Type, bool) {
+	var nonNull []any
+	nulls := 0
+	for _, v := range vals {
+		if isNullRep(v) {
+			nulls++
+		} else {
+			nonNull = append(nonNull, v)
+		}
+	}
+	if nulls == 0 {
+		return nil, false
+	}
+	t := reflect.TypeFor[int]()
+	if len(nonNull) > 0 {
+		if t = sameType(nonNull); t == nil {
+			return nil, false
+		}
+	}
+	return reflect.PointerTo(t), true
+}
+
+func ptrTo(pt reflect.Type, v any) reflect.Value {
+	if isNullRep(v) {
+		return reflect.Zero(pt)
+	}
+	p := reflect.New(pt.Elem())
+	p.Elem().Set(reflect.ValueOf(v))
+	return p
+}
+
 func packMap(r *rng, m map[string]any) any {
 	vals := make([]any, 0, len(m))
 	for _, v := range m {
 		vals = append(vals, v)
+	}
+	if pt, ok := ptrElemType(vals); ok && r.chance(1, 2) {
+		kt := reflect.TypeFor[string]()
+		if r.chance(1, 3) {
+			kt = reflect.TypeFor[MyKey]()
+		}
+		mv := reflect.MakeMapWithSize(reflect.MapOf(kt, pt), len(m))
+		for k, v := range m {
+			mv.SetMapIndex(reflect.ValueOf(k).Convert(kt), ptrTo(pt, v))
+		}
+		return mv.Interface()
 	}
 	et := reflect.TypeFor[any]()
 	if t := sameType(vals); t != nil && r.chance(1, 2) {
